@@ -481,6 +481,16 @@ ExpectedM(c, k) == CASE c.bm = "dflt" -> <<"dm">>
 BindingsAsDeclared == (Compiled /\ ch.mut = "none") =>
                          \A i \in DOMAIN flat : flat[i].tmpl = "prod" => Text(flat[i].env["m"]) = ExpectedM(ch, Len(flat[i].path))
 
+(* the file below the producer that the x argument of a consumer names is the one written in the source, however  *)
+(* the reference was spelled and whichever level appended it (again written down per mode, independent of Resolve) *)
+FileOf(f, r) == SubSeq(r.segs, Len(ProducerOf(f, r)) + 1, Len(r.segs))
+ExpectedFile(c, k) == IF k = 1 THEN (IF c.sp \in {"in", "out", "q", "qcut"} THEN <<File(c.nm)>> ELSE <<>>)
+                      ELSE (IF c.pd \in {"sfx", "file"} THEN <<File(c.nm)>> ELSE <<>>)
+FilesAsWritten == (Compiled /\ ch.mut = "none") =>
+                     \A i \in DOMAIN flat : flat[i].tmpl \in {"consA", "consT"} =>
+                        LET x == flat[i].env["x"]
+                        IN Len(x) = 1 /\ x[1].k = "ref" /\ FileOf(flat, x[1]) = ExpectedFile(ch, Len(flat[i].path))
+
 (* every reference leads to a component instance other than the consumer, the relation is acyclic *)
 RefsResolve == Compiled => \A i \in DOMAIN flat : \A r \in InstRefs(flat[i]) :
                               HasProducer(flat, r) /\ ProducerOf(flat, r) # flat[i].path /\ r.m # ""
